@@ -9,7 +9,7 @@ cp -r /repo/rich "$D/rich"; cp "seeded/$ID/demo.py" "$D/demo.py"
 (cd "$D" && timeout 300 /venv/bin/python demo.py >/dev/null 2>&1); RC0=$?
 (cd "$D" && patch -s -p1 < "$V/seeded/$ID/patch.diff") || { echo "PATCH-FAILED $ID"; rm -rf "$D"; exit 2; }
 (cd "$D" && timeout 300 /venv/bin/python demo.py >/dev/null 2>&1); RC1=$?
-DSIM_REPO="$D" timeout 900 bin/check "$PROP" --tier quick --budget "$BUDGET" --no-selftest --no-evidence > "$D/out.txt" 2>&1; RC=$?
+DSIM_REPO="$D" timeout 900 bin/check "$PROP" --tier quick --budget "$BUDGET" --no-selftest --no-evidence --no-minimise > "$D/out.txt" 2>&1; RC=$?
 SIG=$(grep -A1 "^VIOLATION" "$D/out.txt" | grep -o "sig=[^ ]*" | tr '\n' ' ')
 RUNS=$(grep -o "runs=[0-9]*" "$D/out.txt" | tail -1)
 echo "$ID: demo without=$RC0 with=$RC1; check $PROP rc=$RC $SIG $RUNS"
